@@ -638,7 +638,9 @@ func (it *Interp) instr(f *frame, in ssa.Instruction) {
 						}
 					}
 				}
-				if lossy && w < iv.W && !onlyMasked(x) {
+				// (a conversion to a single byte is serialisation: the other bytes take the remaining bits, which the
+				// bit-origin / output rules decide)
+				if lossy && w < iv.W && w > 8 && !onlyMasked(x) {
 					// a narrowing that drops possibly-set bits is fine only when the dropped bits are consumed elsewhere;
 					// the rule decides (recorded as a finding of kind "narrow")
 					it.flag("narrow", fmt.Sprintf("conversion to %d bits may drop set bits: value up to %#x (2^%d)", w, iv.Hi, iv.Hi.BitLen()), x)
@@ -698,7 +700,21 @@ func (it *Interp) instr(f *frame, in ssa.Instruction) {
 	case *ssa.Call:
 		f.env[x] = it.call(f, x)
 	case *ssa.Index:
-		// constant-index read of an array value is not used by the arithmetic packages
+		// element of an array value (`for i, v := range arr`, `arr[i]` on a copy): the value is a snapshot object
+		if pv, ok := it.get(f, x.X).(PtrV); ok && pv.Idx == -1 {
+			if o := it.St.Objs[pv.Obj]; o.Kind == "arr" {
+				if idx, ok := it.intOf(f, x.Index); ok && idx.IsConst() {
+					i := int(idx.Int64())
+					if i < 0 || i >= len(o.Vals) {
+						it.Err = fmt.Errorf("index %d out of range (len %d) in %s", i, len(o.Vals), f.fn.Name())
+						f.env[x] = OpaqueV{"oob"}
+						return
+					}
+					f.env[x] = o.Vals[i]
+					return
+				}
+			}
+		}
 		if w, sg, isInt := intInfo(x.Type()); isInt {
 			f.env[x] = Top(w, sg)
 		} else {
@@ -832,7 +848,13 @@ func (it *Interp) loadElem(p PtrV, t types.Type) AnyVal {
 		if _, _, isInt := intInfo(t); isInt {
 			return o.Vals[0]
 		}
-		return p // load of a whole array value: keep a reference (copy semantics handled at store)
+		return p
+	case o.Kind == "arr" && p.Idx == -1 && p.VW == 0:
+		// load of a whole array value: a snapshot (Go copies array values)
+		if _, isArr := t.Underlying().(*types.Array); isArr {
+			cp := &Object{Name: o.Name + "(copy)", Kind: "arr", W: o.W, Sg: o.Sg, Vals: append([]Val{}, o.Vals...)}
+			return PtrV{Obj: it.St.new(cp), Idx: -1}
+		}
 	case o.Kind == "cell":
 		return o.Cell
 	}
